@@ -1,3 +1,724 @@
-use crate::world::{World, R};
-use serde_json::Value;
-pub fn exec(_w: &mut World, name: &str, _op: &Value) -> R<Value> { Err(format!("unknown op {name}")) }
+//! SM9 ops (KGC, signer/verifier, encryptor/decryptor, key-exchange parties), each playable by
+//! the library or by the reference, with the library cross-checked against the reference on the
+//! delivered bytes. Wire forms: G1 = 04||x||y (65 bytes); G2 = 04||x1||x0||y1||y0 (129 bytes,
+//! GM/T 0044 order: coefficient of u first); signature = h(32)||S(65); ciphertext = C1||C3||C2.
+
+use crate::libglue as glue;
+use crate::refmodel::sm9::{self as rsm9, F12, G1, G2};
+use crate::simrng::{run_lib, run_lib_norng, Class, Outcome, RngLog};
+use crate::world::{fnv, grng, gs, gs_opt, gu, World, R};
+use gm_sm9::key::{Sm9EncKey, Sm9EncMasterKey, Sm9SignKey, Sm9SignMasterKey};
+use num_bigint::BigUint;
+use num_traits::Zero;
+use serde_json::{json, Value};
+use std::cell::RefCell;
+use std::collections::HashMap;
+
+pub fn exec(w: &mut World, name: &str, op: &Value) -> R<Value> {
+    match name {
+        "sm9.master" => master(w, op),
+        "sm9.master_pub" => master_pub(w, op),
+        "sm9.extract" => extract(w, op),
+        "sm9.sign" => sign(w, op),
+        "sm9.verify" => verify(w, op),
+        "sm9.encrypt" => encrypt(w, op),
+        "sm9.decrypt" => decrypt(w, op),
+        "sm9.kex.1a" => kex_1a(w, op),
+        "sm9.kex.1b" => kex_1b(w, op),
+        "sm9.kex.2a" => kex_2a(w, op),
+        "sm9.kex.end" => kex_end(w, op),
+        _ => Err(format!("unknown op {name}")),
+    }
+}
+
+thread_local! {
+    // memo of e(P1, Ppub-s) / e(Ppub-e, P2) in the reference (pure function of the key bytes)
+    static G_CACHE: RefCell<HashMap<Vec<u8>, Option<F12>>> = RefCell::new(HashMap::new());
+}
+
+fn order() -> BigUint {
+    rsm9::with(|s| s.n.clone())
+}
+fn in_range(k: &BigUint) -> bool {
+    !k.is_zero() && k < &order()
+}
+
+pub fn g2_wire(q: &G2) -> Vec<u8> {
+    let (x, y) = q.as_ref().expect("g2_wire(infinity)");
+    let mut v = vec![4u8];
+    for c in [&x.1, &x.0, &y.1, &y.0] {
+        v.extend_from_slice(&rsm9::be32(c));
+    }
+    v
+}
+/// no validation
+pub fn g2_unwire(b: &[u8]) -> Option<G2> {
+    if b.len() != 129 {
+        return None;
+    }
+    let f = |i: usize| BigUint::from_bytes_be(&b[1 + 32 * i..33 + 32 * i]);
+    Some(Some(((f(1), f(0)), (f(3), f(2)))))
+}
+pub fn g1_unwire(b: &[u8]) -> Option<G1> {
+    if b.len() != 65 {
+        return None;
+    }
+    Some(Some((BigUint::from_bytes_be(&b[1..33]), BigUint::from_bytes_be(&b[33..65]))))
+}
+
+fn g_sign(ppubs_wire: &[u8]) -> Option<F12> {
+    let k = [b"s", ppubs_wire].concat();
+    if let Some(v) = G_CACHE.with(|c| c.borrow().get(&k).cloned()) {
+        return v;
+    }
+    let q = g2_unwire(ppubs_wire)?;
+    let v = rsm9::with(|s| s.pairing(&s.g1, &q));
+    G_CACHE.with(|c| c.borrow_mut().insert(k, v.clone()));
+    v
+}
+fn g_enc(ppube_wire: &[u8]) -> Option<F12> {
+    let k = [b"e", ppube_wire].concat();
+    if let Some(v) = G_CACHE.with(|c| c.borrow().get(&k).cloned()) {
+        return v;
+    }
+    let p = g1_unwire(ppube_wire)?;
+    let v = rsm9::with(|s| s.pairing(&p, &s.g2));
+    G_CACHE.with(|c| c.borrow_mut().insert(k, v.clone()));
+    v
+}
+
+fn lib_twist(b: &[u8]) -> Option<gm_sm9::points::TwistPoint> {
+    Some(glue::sm9_twist_from_ref(&g2_unwire(b)?))
+}
+fn lib_point(b: &[u8]) -> Option<gm_sm9::points::Point> {
+    glue::sm9_point_from_wire_unchecked(b)
+}
+
+fn c14_used(w: &mut World, site: &str, log: &RngLog, used: Option<&BigUint>, case: u64) {
+    let key = |class: &str| json!({"entry": site, "class": class, "outcome": "Ok"});
+    w.check("C14", "drew-fresh", !log.offered.is_empty(), case, key("no-draw"), || format!("{site}: completed without drawing from the random source"));
+    match used {
+        None => w.check("C14", "used-was-offered", false, case, key("not-offered"), || {
+            format!("{site}: the scalar used matches none of the {} candidates offered in this call", log.offered.len())
+        }),
+        Some(k) => {
+            let kb = rsm9::be32(k);
+            let offered = log.offered.iter().any(|c| c == &kb);
+            w.check("C14", "used-was-offered", offered, case, key("not-offered"), || format!("{site}: used scalar {} was not offered in this call", hex::encode(kb)));
+            w.check("C14", "used-in-range", in_range(k), case, key("out-of-range"), || format!("{site}: used scalar {} is outside [1, N-1]", hex::encode(kb)));
+            w.scalar_used(site, &kb, case);
+        }
+    }
+    for c in &log.offered {
+        if !in_range(&BigUint::from_bytes_be(c)) {
+            w.bump("rngfault.out-of-range-offered");
+        }
+    }
+}
+
+fn hang_check(w: &mut World, site: &str, class: &Class, log: &RngLog, case: u64) {
+    let oor = log.offered.iter().filter(|c| !in_range(&BigUint::from_bytes_be(*c))).count();
+    if oor <= 8 {
+        let key = json!({"entry": site, "class": "draw-budget", "outcome": class.as_str()});
+        w.check("C14", "draw-budget", *class != Class::Hang, case, key, || {
+            format!("{site}: consumed more than {} candidates ({} out of range)", crate::simrng::DRAW_BUDGET, oor)
+        });
+    }
+}
+
+fn classify<T>(o: Outcome<Option<T>>) -> (Class, Option<T>) {
+    match o {
+        Outcome::Done(Some(v)) => (Class::Ok, Some(v)),
+        Outcome::Done(None) => (Class::Err, None),
+        Outcome::Panic(_) => (Class::Panic, None),
+        Outcome::Hang => (Class::Hang, None),
+    }
+}
+
+// ---------------------------------------------------------------------------------------------
+// KGC
+
+fn prop_of(kind: &str) -> &'static str {
+    match kind {
+        "sign" => "C09",
+        "enc" => "C10",
+        _ => "C17",
+    }
+}
+
+fn master(w: &mut World, op: &Value) -> R<Value> {
+    let script = grng(op)?;
+    let kind = gs(op, "kind")?;
+    let imp = gs(op, "impl")?;
+    let case = fnv(&[b"sm9master", op.to_string().as_bytes()]);
+    if imp == "ref" {
+        let k = script.stream().iter().map(|c| BigUint::from_bytes_be(c)).find(in_range).ok_or("ref master: no usable candidate")?;
+        w.put(gs(op, "k")?, rsm9::be32(&k).to_vec());
+        let pubw = rsm9::with(|s| if kind == "sign" { g2_wire(&s.g2_mul(&k, &s.g2)) } else { s.g1_bytes(&s.g1_mul(&k, &s.g1)) });
+        w.put(gs(op, "pub")?, pubw);
+        return Ok(json!({"class":"Ok"}));
+    }
+    let site = if kind == "sign" { "sm9.sign_master_key_generate" } else { "sm9.enc_master_key_generate" };
+    w.bump(&format!("call.{site}"));
+    let (out, log) = run_lib(&script, || {
+        if kind == "sign" {
+            let m = Sm9SignMasterKey::master_key_generate();
+            Some((glue::limbs_to_big(&m.ks), g2_wire(&glue::sm9_twist_to_ref(&m.ppubs))))
+        } else {
+            let m = Sm9EncMasterKey::master_key_generate();
+            Some((glue::limbs_to_big(&m.ke), m.ppube.to_bytes_be()))
+        }
+    });
+    let (class, res) = classify(out);
+    hang_check(w, site, &class, &log, case);
+    if let Some((k, pubw)) = res {
+        c14_used(w, site, &log, Some(&k), case);
+        let want = rsm9::with(|s| if kind == "sign" { g2_wire(&s.g2_mul(&k, &s.g2)) } else { s.g1_bytes(&s.g1_mul(&k, &s.g1)) });
+        let key = json!({"entry":site,"class":"any","outcome":"Ok"});
+        w.check(prop_of(kind), "master-public-matches", want == pubw, case, key, || format!("master public key is not [k]P for k={}", hex::encode(rsm9::be32(&k))));
+        w.put(gs(op, "k")?, rsm9::be32(&k).to_vec());
+        w.put(gs(op, "pub")?, pubw);
+    }
+    Ok(json!({"class": class.as_str(), "draws": log.offered.len()}))
+}
+
+/// Master public key for a chosen master secret (the way the repository's own tests build one).
+fn master_pub(w: &mut World, op: &Value) -> R<Value> {
+    let kind = gs(op, "kind")?;
+    let kb = w.slot_of(op, "k")?;
+    if kb.len() != 32 {
+        return Err("master_pub: k must be 32 bytes".into());
+    }
+    let k = BigUint::from_bytes_be(&kb);
+    let want = rsm9::with(|s| if kind == "sign" { s.g2_mul(&k, &s.g2).map(|q| g2_wire(&Some(q))) } else { s.g1_mul(&k, &s.g1).map(|p| s.g1_bytes(&Some(p))) });
+    if gs(op, "impl")? == "ref" {
+        w.put(gs(op, "pub")?, want.ok_or("master_pub: k = 0 mod N")?);
+        return Ok(json!({"class":"Ok"}));
+    }
+    let limbs = glue::be_to_limbs(&kb);
+    let out = run_lib_norng(|| {
+        if kind == "sign" {
+            Some(g2_wire(&glue::sm9_twist_to_ref(&gm_sm9::points::TwistPoint::g_mul(&limbs))))
+        } else {
+            Some(gm_sm9::points::Point::g_mul(&limbs).to_bytes_be())
+        }
+    });
+    let (class, res) = classify(out);
+    if let Some(pubw) = res {
+        if in_range(&k) {
+            let case = fnv(&[b"sm9masterpub", &kb, kind.as_bytes()]);
+            let key = json!({"entry":"sm9.g_mul","class":"k in [1,N-1]","outcome":"Ok"});
+            w.check(prop_of(kind), "master-public-matches", Some(&pubw) == want.as_ref(), case, key, || format!("[k]P differs from the reference for k={}", hex::encode(&kb)));
+        }
+        w.put(gs(op, "pub")?, pubw);
+    }
+    Ok(json!({"class": class.as_str()}))
+}
+
+fn extract(w: &mut World, op: &Value) -> R<Value> {
+    let kind = gs(op, "kind")?.to_string();
+    let kb = w.slot_of(op, "k")?;
+    let pubw = w.slot_of(op, "pub")?;
+    let id = w.slot_of(op, "id")?;
+    let out_slot = gs(op, "out")?.to_string();
+    if kb.len() != 32 {
+        return Err("extract: k must be 32 bytes".into());
+    }
+    let k = BigUint::from_bytes_be(&kb);
+    let want: Option<Vec<u8>> = rsm9::with(|s| match kind.as_str() {
+        "sign" => s.extract_sign_key(&k, &id).map(|p| s.g1_bytes(&p)),
+        "enc" => s.extract_enc_key(&k, &id, 3).map(|q| g2_wire(&q)),
+        _ => s.extract_enc_key(&k, &id, 2).map(|q| g2_wire(&q)),
+    });
+    if gs(op, "impl")? == "ref" {
+        match want {
+            Some(v) => {
+                w.put(&out_slot, v);
+                return Ok(json!({"class":"Ok"}));
+            }
+            None => return Ok(json!({"class":"Err"})),
+        }
+    }
+    let limbs = glue::be_to_limbs(&kb);
+    w.bump(&format!("call.sm9.extract_{kind}"));
+    let out = run_lib_norng(|| match kind.as_str() {
+        "sign" => {
+            let m = Sm9SignMasterKey { ks: limbs, ppubs: lib_twist(&pubw)? };
+            m.extract_key(&id).map(|k| k.ds.to_bytes_be())
+        }
+        "enc" => {
+            let m = Sm9EncMasterKey { ke: limbs, ppube: lib_point(&pubw)? };
+            m.extract_key(&id).map(|k| g2_wire(&glue::sm9_twist_to_ref(&k.de)))
+        }
+        _ => {
+            let m = Sm9EncMasterKey { ke: limbs, ppube: lib_point(&pubw)? };
+            m.extract_exch_key(&id).map(|k| g2_wire(&glue::sm9_twist_to_ref(&k.de)))
+        }
+    });
+    let (class, res) = classify(out);
+    let case = fnv(&[b"sm9extract", &kb, &id, kind.as_bytes()]);
+    if in_range(&k) {
+        let key = json!({"entry":format!("sm9.extract_{kind}"),"class":"k in [1,N-1]","outcome":class.as_str()});
+        w.check(prop_of(&kind), "extract-matches", res == want && class != Class::Panic, case, key, || {
+            format!("extracted key {:?} differs from GM/T 0044 value {:?} (k={}, id={})", res.as_ref().map(hex::encode), want.as_ref().map(hex::encode), hex::encode(&kb), hex::encode(&id))
+        });
+    }
+    if let Some(v) = res {
+        w.put(&out_slot, v);
+    }
+    Ok(json!({"class": class.as_str()}))
+}
+
+// ---------------------------------------------------------------------------------------------
+// signatures
+
+fn sign(w: &mut World, op: &Value) -> R<Value> {
+    let script = grng(op)?;
+    let dsw = w.slot_of(op, "ds")?;
+    let ppubs = w.slot_of(op, "ppubs")?;
+    let id = w.slot_of(op, "id")?;
+    let msg = w.slot_of(op, "msg")?;
+    let out_slot = gs(op, "sig")?.to_string();
+    let case = fnv(&[b"sm9sign", &dsw, &ppubs, &msg, op.get("rng").map(|v| v.to_string()).unwrap_or_default().as_bytes()]);
+    let ds_ref = g1_unwire(&dsw).ok_or("sign: ds wire")?;
+    let g = g_sign(&ppubs);
+    if gs(op, "impl")? == "ref" {
+        let g = g.ok_or("ref sign: invalid Ppub-s")?;
+        let (h, s) = rsm9::with(|p| script.stream().iter().find_map(|r| p.sign_with_r(&g, &ds_ref, &msg, &BigUint::from_bytes_be(r)))).ok_or("ref sign: no usable candidate")?;
+        let mut sig = rsm9::be32(&h).to_vec();
+        sig.extend_from_slice(&rsm9::with(|p| p.g1_bytes(&s)));
+        w.put(&out_slot, sig);
+        return Ok(json!({"class":"Ok"}));
+    }
+    w.bump("call.sm9.sign");
+    let (out, log) = run_lib(&script, || {
+        let key = Sm9SignKey { ppubs: lib_twist(&ppubs)?, ds: lib_point(&dsw)? };
+        key.sign(&msg).ok().map(|(h, s)| {
+            let mut v = glue::limbs_to_be(&h).to_vec();
+            v.extend_from_slice(&s.to_bytes_be());
+            v
+        })
+    });
+    let (class, sig) = classify(out);
+    hang_check(w, "sm9.sign", &class, &log, case);
+    let key = |c: &str| json!({"entry":"sm9.sign","class":c,"outcome":class.as_str()});
+    w.check("C09", "sign-succeeds", class == Class::Ok, case, key("in-domain"), || format!("sign ended in {}", class.as_str()));
+    if let (Some(sig), Some(g)) = (&sig, &g) {
+        let h = BigUint::from_bytes_be(&sig[..32]);
+        let s_pt = g1_unwire(&sig[32..]).flatten();
+        let shape = sig.len() == 97 && in_range(&h) && rsm9::with(|p| p.g1_on_curve(&s_pt));
+        w.check("C09", "O9.2-shape", shape, case, key("shape"), || format!("(h,S) = {} does not have h in [1,N-1] and S on the curve", hex::encode(sig)));
+        // which offered candidate reproduces it
+        let mut used = None;
+        for c in &log.offered {
+            let r = BigUint::from_bytes_be(c);
+            if let Some((hh, ss)) = rsm9::with(|p| p.sign_with_r(g, &ds_ref, &msg, &r)) {
+                let mut v = rsm9::be32(&hh).to_vec();
+                v.extend_from_slice(&rsm9::with(|p| p.g1_bytes(&ss)));
+                if &v == sig {
+                    used = Some(r);
+                    break;
+                }
+            }
+        }
+        w.check("C09", "O9.3-exact", used.is_some(), case, key("exact"), || {
+            format!("(h,S) = {} equals the GM/T 0044.2 value for none of the {} offered r", hex::encode(sig), log.offered.len())
+        });
+        c14_used(w, "sm9.sign", &log, used.as_ref(), case);
+        let ok = rsm9::with(|p| p.verify(g, &g2_unwire(&ppubs).unwrap(), &id, &msg, &h, &s_pt));
+        w.check("C09", "O9.1-ref-accepts", ok, case, key("ref-verify"), || format!("reference verifier rejects library signature {}", hex::encode(sig)));
+        if log.offered.len() > 1 {
+            w.bump("probe.sm9.sign.retry");
+        }
+    }
+    if let Some(sig) = sig {
+        w.put(&out_slot, sig);
+    }
+    Ok(json!({"class": class.as_str(), "draws": log.offered.len()}))
+}
+
+fn verify(w: &mut World, op: &Value) -> R<Value> {
+    let ppubs = w.slot_of(op, "ppubs")?;
+    let id = w.slot_of(op, "id")?;
+    let msg = w.slot_of(op, "msg")?;
+    let sig = w.slot_of(op, "sig")?;
+    let ref_on_reject = op.get("ref_on_reject").and_then(|v| v.as_bool()).unwrap_or(true);
+    let case = fnv(&[b"sm9verify", &ppubs, &id, &msg, &sig]);
+    let ref_verdict = |sig: &[u8]| -> bool {
+        if sig.len() != 97 {
+            return false;
+        }
+        let (g, q) = match (g_sign(&ppubs), g2_unwire(&ppubs)) {
+            (Some(g), Some(q)) => (g, q),
+            _ => return false,
+        };
+        let h = BigUint::from_bytes_be(&sig[..32]);
+        let s = match rsm9::with(|p| p.g1_decode(&sig[32..])) {
+            Some(s) => s,
+            None => return false,
+        };
+        rsm9::with(|p| p.verify(&g, &q, &id, &msg, &h, &s))
+    };
+    if gs(op, "impl")? == "ref" {
+        return Ok(json!({"class": if ref_verdict(&sig) {"Ok"} else {"Err"}}));
+    }
+    if sig.len() != 97 || sig[32] != 4 {
+        // (h, S) is a structured argument: bytes of another shape cannot be handed to the API at all
+        w.bump("probe.sm9.verify.undeliverable");
+        return Ok(json!({"skipped":"signature wire form cannot be handed to the API"}));
+    }
+    w.bump("call.sm9.verify_sign");
+    let h_limbs = glue::be_to_limbs(&sig[..32]);
+    let out = run_lib_norng(|| {
+        let m = Sm9SignMasterKey { ks: [0, 0, 0, 0], ppubs: lib_twist(&ppubs)? };
+        let s = lib_point(&sig[32..])?;
+        m.verify_sign(&id, &msg, &h_limbs, &s).ok()
+    });
+    let (class, _) = classify(out);
+    let h = BigUint::from_bytes_be(&sig[..32]);
+    let nn = order();
+    let input_class = if h.is_zero() {
+        "h=0"
+    } else if h >= &nn - 1u32 {
+        "h>=N-1"
+    } else {
+        "h in [1,N-2]"
+    };
+    w.check_class(&["C09", "C20"], "sm9.verify_sign", &class, input_class, case, "");
+    let key = json!({"entry":"sm9.verify_sign","class":input_class,"outcome":class.as_str()});
+    if class == Class::Ok {
+        let r = ref_verdict(&sig);
+        w.check("C09", "O9.5-sound", r, case, key, || {
+            format!("library accepts what the reference verifier rejects: id={} msg={} sig={}", hex::encode(&id), hex::encode(&msg), hex::encode(&sig))
+        });
+        w.bump("probe.sm9.verify.accepted");
+    } else {
+        if ref_on_reject {
+            let r = ref_verdict(&sig);
+            w.check("C09", "O9.4-complete", !r, case, key, || {
+                format!("library rejects ({}) a signature the reference verifier accepts: id={} msg={} sig={}", class.as_str(), hex::encode(&id), hex::encode(&msg), hex::encode(&sig))
+            });
+        }
+        w.bump("probe.sm9.verify.rejected");
+    }
+    Ok(json!({"class": class.as_str()}))
+}
+
+// ---------------------------------------------------------------------------------------------
+// encryption
+
+fn encrypt(w: &mut World, op: &Value) -> R<Value> {
+    let script = grng(op)?;
+    let ppube = w.slot_of(op, "ppube")?;
+    let id = w.slot_of(op, "id")?;
+    let msg = w.slot_of(op, "msg")?;
+    let out_slot = gs(op, "ct")?.to_string();
+    let case = fnv(&[b"sm9enc", &ppube, &id, &msg, op.get("rng").map(|v| v.to_string()).unwrap_or_default().as_bytes()]);
+    let g = g_enc(&ppube);
+    let pp = g1_unwire(&ppube).ok_or("encrypt: ppube wire")?;
+    if gs(op, "impl")? == "ref" {
+        let g = g.ok_or("ref encrypt: invalid Ppub-e")?;
+        let ct = rsm9::with(|p| script.stream().iter().find_map(|r| p.encrypt_with_r(&g, &pp, &id, &msg, &BigUint::from_bytes_be(r)))).ok_or("ref encrypt: no usable candidate")?;
+        w.put(&out_slot, ct);
+        return Ok(json!({"class":"Ok"}));
+    }
+    if msg.is_empty() || msg.len() > 255 {
+        return Ok(json!({"skipped":"message length outside 1..=255 (outside the property's domain)"}));
+    }
+    w.bump("call.sm9.encrypt");
+    let (out, log) = run_lib(&script, || {
+        let m = Sm9EncMasterKey { ke: [0, 0, 0, 0], ppube: lib_point(&ppube)? };
+        Some(m.encrypt(&id, &msg))
+    });
+    let (class, ct) = classify(out);
+    hang_check(w, "sm9.encrypt", &class, &log, case);
+    let key = |c: &str| json!({"entry":"sm9.encrypt","class":c,"outcome":class.as_str()});
+    w.check("C10", "encrypt-succeeds", class == Class::Ok, case, key("in-domain"), || format!("encrypt ended in {}", class.as_str()));
+    if let (Some(ct), Some(g)) = (&ct, &g) {
+        // the used r: C1 = [r]Q_B for exactly one offered candidate
+        let mut used = None;
+        if ct.len() >= 65 {
+            for c in &log.offered {
+                let r = BigUint::from_bytes_be(c);
+                if !in_range(&r) {
+                    continue;
+                }
+                let c1 = rsm9::with(|p| {
+                    let qb = p.g1_add(&p.g1_mul(&p.h1(&id, 3), &p.g1), &pp);
+                    p.g1_mul(&r, &qb)
+                });
+                if c1.is_some() && rsm9::with(|p| p.g1_bytes(&c1)) == ct[..65] {
+                    used = Some(r);
+                    break;
+                }
+            }
+        }
+        c14_used(w, "sm9.encrypt", &log, used.as_ref(), case);
+        if let Some(r) = &used {
+            let want = rsm9::with(|p| p.encrypt_with_r(g, &pp, &id, &msg, r));
+            w.check("C10", "O10.2-exact", want.as_ref() == Some(ct), case, key("exact"), || {
+                format!(
+                    "ciphertext differs from GM/T 0044.4 for r={}: got {} want {}",
+                    hex::encode(rsm9::be32(r)), hex::encode(ct), want.as_ref().map(hex::encode).unwrap_or("<pick another r: K1 is all zero>".into())
+                )
+            });
+        }
+        if log.offered.len() > 1 {
+            w.bump("probe.sm9.encrypt.retry");
+        }
+    }
+    if let Some(ct) = ct {
+        w.put(&out_slot, ct);
+    }
+    Ok(json!({"class": class.as_str(), "draws": log.offered.len()}))
+}
+
+fn decrypt(w: &mut World, op: &Value) -> R<Value> {
+    let dew = w.slot_of(op, "de")?;
+    let ppube = w.slot_of(op, "ppube")?;
+    let id = w.slot_of(op, "id")?;
+    let ct = w.slot_of(op, "ct")?;
+    let ref_on_reject = op.get("ref_on_reject").and_then(|v| v.as_bool()).unwrap_or(true);
+    let case = fnv(&[b"sm9dec", &dew, &id, &ct]);
+    let de_ref = g2_unwire(&dew).ok_or("decrypt: de wire")?;
+    let ref_dec = |ct: &[u8]| rsm9::with(|p| p.decrypt(&de_ref, &id, ct));
+    if gs(op, "impl")? == "ref" {
+        let r = ref_dec(&ct);
+        if let (Ok(m), Some(out)) = (&r, gs_opt(op, "out")) {
+            w.put(out, m.clone());
+        }
+        return Ok(json!({"class": if r.is_ok() {"Ok"} else {"Err"}}));
+    }
+    w.bump("call.sm9.decrypt");
+    let out = run_lib_norng(|| {
+        let k = Sm9EncKey { ppube: lib_point(&ppube)?, de: lib_twist(&dew)? };
+        k.decrypt(&id, &ct).ok()
+    });
+    let (class, m) = classify(out);
+    let input_class = if ct.len() < 97 {
+        "ct.len<97"
+    } else if ct.len() == 97 {
+        "ct.len=97 (empty C2)"
+    } else if ct.len() > 97 + 255 {
+        "ct.len>97+255"
+    } else {
+        "ct.len in 98..=352"
+    };
+    w.check_class(&["C10", "C20"], "sm9.decrypt", &class, input_class, case, "");
+    let key = json!({"entry":"sm9.decrypt","class":input_class,"outcome":class.as_str()});
+    if let Some(m) = &m {
+        let r = ref_dec(&ct);
+        let reason = r.as_ref().err().copied().unwrap_or("");
+        let key2 = json!({"entry":"sm9.decrypt","class":format!("{input_class};ref={reason}"),"outcome":class.as_str()});
+        w.check("C10", "O10.4-sound", r.as_ref().ok() == Some(m), case, key2, || {
+            format!("library returns plaintext {} where the reference decryptor says {:?}: id={} ct={}", hex::encode(m), r.as_ref().map(hex::encode), hex::encode(&id), hex::encode(&ct))
+        });
+        w.bump("probe.sm9.decrypt.accepted");
+        if let Some(out) = gs_opt(op, "out") {
+            w.put(out, m.clone());
+        }
+    } else {
+        if ref_on_reject && ct.len() <= 97 + 255 {
+            let r = ref_dec(&ct);
+            w.check("C10", "O10.3-complete", r.is_err(), case, key, || {
+                format!("library rejects ({}) a ciphertext the reference decrypts: id={} ct={}", class.as_str(), hex::encode(&id), hex::encode(&ct))
+            });
+        }
+        w.bump("probe.sm9.decrypt.rejected");
+    }
+    Ok(json!({"class": class.as_str()}))
+}
+
+// ---------------------------------------------------------------------------------------------
+// key exchange
+
+fn kex_1a(w: &mut World, op: &Value) -> R<Value> {
+    let script = grng(op)?;
+    let ppube = w.slot_of(op, "ppube")?;
+    let idb = w.slot_of(op, "idb")?;
+    let case = fnv(&[b"sm9kex1a", &ppube, &idb, op.to_string().as_bytes()]);
+    let pp = g1_unwire(&ppube).ok_or("kex: ppube wire")?;
+    if gs(op, "impl")? == "ref" {
+        let r = script.stream().iter().map(|c| BigUint::from_bytes_be(c)).find(in_range).ok_or("ref kex: no usable candidate")?;
+        let ra = rsm9::with(|p| p.g1_bytes(&p.kex_r_point(&pp, &idb, &r)));
+        w.put(gs(op, "out_ra")?, ra);
+        w.put(gs(op, "out_r")?, rsm9::be32(&r).to_vec());
+        return Ok(json!({"class":"Ok"}));
+    }
+    w.bump("call.sm9.exch_step_1a");
+    let (out, log) = run_lib(&script, || {
+        let m = Sm9EncMasterKey { ke: [0, 0, 0, 0], ppube: lib_point(&ppube)? };
+        let (ra, r) = gm_sm9::key::exch_step_1a(&m, &idb);
+        Some((ra.to_bytes_be(), glue::limbs_to_big(&r)))
+    });
+    let (class, res) = classify(out);
+    hang_check(w, "sm9.exch_step_1a", &class, &log, case);
+    w.check_class(&["C17"], "sm9.exch_step_1a", &class, "any", case, "");
+    if let Some((ra, r)) = res {
+        c14_used(w, "sm9.exch_step_1a", &log, Some(&r), case);
+        let want = rsm9::with(|p| p.g1_bytes(&p.kex_r_point(&pp, &idb, &r)));
+        let key = json!({"entry":"sm9.exch_step_1a","class":"any","outcome":"Ok"});
+        w.check("C17", "O17.2-R_A-conforms", want == ra, case, key, || format!("R_A {} is not [r_A]([H1(ID_B||02)]P1 + Ppub-e) = {}", hex::encode(&ra), hex::encode(&want)));
+        w.put(gs(op, "out_ra")?, ra);
+        w.put(gs(op, "out_r")?, rsm9::be32(&r).to_vec());
+    }
+    Ok(json!({"class": class.as_str()}))
+}
+
+fn kex_1b(w: &mut World, op: &Value) -> R<Value> {
+    let script = grng(op)?;
+    let ppube = w.slot_of(op, "ppube")?;
+    let ida = w.slot_of(op, "ida")?;
+    let idb = w.slot_of(op, "idb")?;
+    let dew = w.slot_of(op, "de")?;
+    let ra = w.slot_of(op, "ra")?;
+    let klen = gu(op, "klen")? as usize;
+    let case = fnv(&[b"sm9kex1b", &ppube, &ida, &idb, &ra, op.to_string().as_bytes()]);
+    let pp = g1_unwire(&ppube).ok_or("kex: ppube wire")?;
+    let de_ref = g2_unwire(&dew).ok_or("kex: de wire")?;
+    let ra_ref = rsm9::with(|p| p.g1_decode(&ra));
+    let g = g_enc(&ppube).ok_or("kex: invalid Ppub-e")?;
+    let ref_side = |r: &BigUint| -> Option<(Vec<u8>, Vec<u8>)> {
+        let ra_pt = ra_ref.clone()?;
+        rsm9::with(|p| {
+            let rb_pt = p.kex_r_point(&pp, &ida, r);
+            let sk = p.kex_key(&g, false, &de_ref, r, &ida, &idb, &ra_pt, &rb_pt, klen)?;
+            Some((p.g1_bytes(&rb_pt), sk))
+        })
+    };
+    if gs(op, "impl")? == "ref" {
+        let r = script.stream().iter().map(|c| BigUint::from_bytes_be(c)).find(in_range).ok_or("ref kex: no usable candidate")?;
+        return match ref_side(&r) {
+            Some((rb, sk)) => {
+                w.put(gs(op, "out_rb")?, rb);
+                w.put(gs(op, "out_sk")?, sk);
+                Ok(json!({"class":"Ok"}))
+            }
+            None => Ok(json!({"class":"Err"})),
+        };
+    }
+    w.bump("call.sm9.exch_step_1b");
+    let (out, log) = run_lib(&script, || {
+        let m = Sm9EncMasterKey { ke: [0, 0, 0, 0], ppube: lib_point(&ppube)? };
+        let key = Sm9EncKey { ppube: m.ppube, de: lib_twist(&dew)? };
+        let ra_pt = lib_point(&ra)?;
+        gm_sm9::key::exch_step_1b(&m, &ida, &idb, &key, &ra_pt, klen).ok().map(|(rb, sk)| (rb.to_bytes_be(), sk))
+    });
+    let (class, res) = classify(out);
+    hang_check(w, "sm9.exch_step_1b", &class, &log, case);
+    let conform = op.get("conform").and_then(|v| v.as_bool()).unwrap_or(true);
+    let ic = if ra_ref.is_some() { "R_A on curve" } else { "R_A invalid" };
+    w.check_class(&["C17"], "sm9.exch_step_1b", &class, ic, case, "");
+    let key = json!({"entry":"sm9.exch_step_1b","class":ic,"outcome":class.as_str()});
+    w.check("C17", "O17.3-offcurve-rejected", ra_ref.is_some() || class != Class::Ok, case, key.clone(), || format!("exch_step_1b accepted an R_A that is not a valid curve point: {}", hex::encode(&ra)));
+    if ra_ref.is_some() && klen >= 1 {
+        w.check("C17", "O17.1-step1b-succeeds", class == Class::Ok, case, key.clone(), || format!("exch_step_1b ended in {} on a valid R_A", class.as_str()));
+    }
+    if let Some((rb, sk)) = res {
+        // the used r_B: R_B = [r_B]Q_A for one offered candidate
+        let mut used = None;
+        for c in &log.offered {
+            let r = BigUint::from_bytes_be(c);
+            if in_range(&r) && rsm9::with(|p| p.g1_bytes(&p.kex_r_point(&pp, &ida, &r))) == rb {
+                used = Some(r);
+                break;
+            }
+        }
+        c14_used(w, "sm9.exch_step_1b", &log, used.as_ref(), case);
+        if let (Some(r), true) = (&used, ra_ref.is_some() && conform) {
+            if let Some((_, want_sk)) = ref_side(r) {
+                w.check("C17", "O17.2-SK_B-conforms", want_sk == sk, case, key.clone(), || {
+                    format!("SK_B {} differs from GM/T 0044.3 value {}", hex::encode(&sk), hex::encode(&want_sk))
+                });
+            }
+        }
+        w.check("C17", "O17.1-length", sk.len() == klen, case, key, || format!("SK_B has {} bytes, klen = {klen}", sk.len()));
+        w.put(gs(op, "out_rb")?, rb);
+        w.put(gs(op, "out_sk")?, sk);
+    }
+    Ok(json!({"class": class.as_str()}))
+}
+
+fn kex_2a(w: &mut World, op: &Value) -> R<Value> {
+    let ppube = w.slot_of(op, "ppube")?;
+    let ida = w.slot_of(op, "ida")?;
+    let idb = w.slot_of(op, "idb")?;
+    let dew = w.slot_of(op, "de")?;
+    let rsec = w.slot_of(op, "r")?;
+    let ra = w.slot_of(op, "ra")?;
+    let rb = w.slot_of(op, "rb")?;
+    let klen = gu(op, "klen")? as usize;
+    if rsec.len() != 32 {
+        return Err("kex_2a: r must be 32 bytes".into());
+    }
+    let case = fnv(&[b"sm9kex2a", &ppube, &ida, &idb, &ra, &rb, &rsec]);
+    let de_ref = g2_unwire(&dew).ok_or("kex: de wire")?;
+    let r = BigUint::from_bytes_be(&rsec);
+    let rb_ref = rsm9::with(|p| p.g1_decode(&rb));
+    let ra_ref = rsm9::with(|p| p.g1_decode(&ra));
+    let g = g_enc(&ppube).ok_or("kex: invalid Ppub-e")?;
+    let conform = op.get("conform").and_then(|v| v.as_bool()).unwrap_or(true) || gs(op, "impl")? == "ref";
+    let want = match (&ra_ref, &rb_ref, conform) {
+        (Some(a), Some(b), true) => rsm9::with(|p| p.kex_key(&g, true, &de_ref, &r, &ida, &idb, a, b, klen)),
+        _ => None,
+    };
+    if gs(op, "impl")? == "ref" {
+        return match want {
+            Some(sk) => {
+                w.put(gs(op, "out_sk")?, sk);
+                Ok(json!({"class":"Ok"}))
+            }
+            None => Ok(json!({"class":"Err"})),
+        };
+    }
+    w.bump("call.sm9.exch_step_2a");
+    let r_limbs = glue::be_to_limbs(&rsec);
+    let out = run_lib_norng(|| {
+        let m = Sm9EncMasterKey { ke: [0, 0, 0, 0], ppube: lib_point(&ppube)? };
+        let key = Sm9EncKey { ppube: m.ppube, de: lib_twist(&dew)? };
+        gm_sm9::key::exch_step_2a(&m, &ida, &idb, &key, r_limbs, &lib_point(&ra)?, &lib_point(&rb)?, klen).ok()
+    });
+    let (class, sk) = classify(out);
+    let ic = if rb_ref.is_some() { "R_B on curve" } else { "R_B invalid" };
+    w.check_class(&["C17"], "sm9.exch_step_2a", &class, ic, case, "");
+    let key = json!({"entry":"sm9.exch_step_2a","class":ic,"outcome":class.as_str()});
+    w.check("C17", "O17.3-offcurve-rejected", rb_ref.is_some() || class != Class::Ok, case, key.clone(), || format!("exch_step_2a accepted an R_B that is not a valid curve point: {}", hex::encode(&rb)));
+    if let Some(wsk) = &want {
+        w.check("C17", "O17.2-SK_A-conforms", sk.as_ref() == Some(wsk), case, key.clone(), || {
+            format!("SK_A {:?} differs from GM/T 0044.3 value {}", sk.as_ref().map(hex::encode), hex::encode(wsk))
+        });
+    }
+    if let Some(sk) = sk {
+        w.check("C17", "O17.1-length", sk.len() == klen, case, key, || format!("SK_A has {} bytes, klen = {klen}", sk.len()));
+        w.put(gs(op, "out_sk")?, sk);
+    }
+    Ok(json!({"class": class.as_str()}))
+}
+
+/// End of a session. Unmodified exchange => same key; R_A or R_B modified in transit => the keys
+/// differ (or a step failed). "Modified" is decided on the wire bytes, as the property states it.
+fn kex_end(w: &mut World, op: &Value) -> R<Value> {
+    let ska = w.slot_opt(op, "ska")?;
+    let skb = w.slot_opt(op, "skb")?;
+    let ra_sent = w.slot_of(op, "ra_sent")?;
+    let ra_dlv = w.slot_of(op, "ra_delivered")?;
+    let rb = match (w.slot_opt(op, "rb_sent")?, w.slot_opt(op, "rb_delivered")?) {
+        (Some(a), Some(b)) => Some((a, b)),
+        _ => None,
+    };
+    let case = fnv(&[b"sm9kexend", &ra_sent, &ra_dlv, &ska.clone().unwrap_or_default(), &skb.clone().unwrap_or_default()]);
+    let modified = ra_sent != ra_dlv || rb.as_ref().map(|(a, b)| a != b).unwrap_or(false);
+    let key = json!({"entry":"sm9.kex","class": if modified {"modified"} else {"unmodified"},"outcome":"Ok"});
+    if let (Some(a), Some(b)) = (&ska, &skb) {
+        if modified {
+            w.check("C17", "O17.3-tamper-keys-differ", a != b, case, key, || format!("R_A/R_B was modified in transit and both sides still derived the same key {}", hex::encode(a)));
+            w.bump("probe.sm9.kex.tampered-completed");
+        } else {
+            w.check("C17", "O17.1-keys-agree", a == b, case, key, || format!("unmodified exchange: SK_A={} SK_B={}", hex::encode(a), hex::encode(b)));
+            w.bump("probe.sm9.kex.completed");
+        }
+    } else {
+        w.bump("probe.sm9.kex.aborted");
+    }
+    Ok(json!({"modified": modified}))
+}
